@@ -373,16 +373,18 @@ func GroupByIWithContext[T any, K comparable](iteratee func(ctx context.Context,
 						}
 					},
 					func(ctx context.Context, err error) {
-						destination.ErrorWithContext(ctx, err)
+						// The groups first: the outer Error runs the teardown, which completes
+						// whatever group is still registered.
 						notifyAll(func(o Observer[T]) { o.ErrorWithContext(ctx, err) })
-
 						clearGroups()
+
+						destination.ErrorWithContext(ctx, err)
 					},
 					func(ctx context.Context) {
-						destination.CompleteWithContext(ctx)
 						notifyAll(func(o Observer[T]) { o.CompleteWithContext(ctx) })
-
 						clearGroups()
+
+						destination.CompleteWithContext(ctx)
 					},
 				),
 			)
